@@ -9,6 +9,8 @@ from __future__ import annotations
 import itertools
 import json
 import os
+import threading
+import time
 
 import numpy as np
 
@@ -31,7 +33,7 @@ TRUSTED = [
 ]
 FMT_SPARSE = ["coo", "gcxs"]
 RTS = ["none", "coo", "gcxs", "nd"]
-HANG_DEADLINE = 20.0
+HANG_DEADLINE = 15.0
 
 
 # ------------------------------------------------------------------------------------------------
@@ -105,7 +107,7 @@ def kernel_case(rng, name, dims=None, mats=None):
     m, k, n = dims if dims is not None else mk_dims(rng)
     a, b = mats if mats is not None else (small_dense(rng, (m, k)), small_dense(rng, (k, n)))
     wild = mats is None and rng.random() < 0.35
-    info = {"m": m, "k": k, "n": n, "a": a.tolist(), "b": b.tolist()}
+    info = {"m": m, "k": k, "n": n, "a": a.tolist(), "b": b.tolist(), "box": mats is not None and dims == (2, 2, 1)}
     if name in ("csr_csr_count", "csr_csr"):
         A = csr_from_dense(rng, a, shuffle=wild, dups=wild, zeros=wild)
         B = csr_from_dense(rng, b, shuffle=wild, dups=wild, zeros=wild)
@@ -188,39 +190,77 @@ def compare_kernel(name, args, got, model, active):
     raise ValueError(name)
 
 
-def spec_check_kernel(name, args, info, got):
-    """used instead of the model inside a finding's region once the defect is repaired: the kernel's
-    output, densified, must be the matrix product"""
-    if "ok" not in got:
-        return f"no result: {json.dumps(got)[:120]}"
-    g = got["ok"]
-    m, k, n = info["m"], info["k"], info["n"]
-    a, b = np.array(info["a"], dtype=np.int64).reshape(m, k), np.array(info["b"], dtype=np.int64).reshape(k, n)
-    # the operands the triples stand for (they may carry duplicates / explicit zeros)
-    if name == "csr_csr":
-        a, b = dense_of_csr(args["A"], m, k), dense_of_csr(args["B"], k, n)
-    elif name == "csc_nd_sparse":
-        a = dense_of_csr(args["A"], k, m).T
-    ref = a @ b
-    if name in ("coo_nd",):
-        d = np.array(g["dense"], dtype=np.int64).reshape(m, n)
-    elif name in ("coo_nd_sparse",):
-        d = np.zeros((m, n), dtype=np.int64)
+def densified(name, args, info, g):
+    """the dense matrix a kernel output (implementation form) stands for, or None for the pre-counts"""
+    m, n = info["m"], info["n"]
+    if name in ("coo_nd", "nd_coo", "csr_nd", "csc_nd"):
+        return np.array(g["dense"], dtype=np.int64).reshape(m, n)
+    d = np.zeros((m, n), dtype=np.int64)
+    if name in ("coo_nd_sparse", "nd_coo_sparse", "coo_coo"):
         for r, c, v in zip(g["rows"], g["cols"], g["data"]):
             d[r, c] += v
-    elif name == "csr_csr":
-        d = np.zeros((m, n), dtype=np.int64)
+    elif name in ("csr_csr", "csr_nd_sparse"):
         for r in range(m):
             for p in range(g["indptr"][r], g["indptr"][r + 1]):
                 d[r, g["indices"][p]] += g["data"][p]
     elif name == "csc_nd_sparse":
-        d = np.zeros((m, n), dtype=np.int64)
         for c in range(n):
             for p in range(g["indptr"][c], g["indptr"][c + 1]):
                 d[g["indices"][p], c] += g["data"][p]
     else:
         return None
+    return d
+
+
+def operands_of(name, args, info):
+    """the operands the kernel arguments stand for (triples may carry duplicates / explicit zeros)"""
+    m, k, n = info["m"], info["k"], info["n"]
+    a, b = np.array(info["a"], dtype=np.int64).reshape(m, k), np.array(info["b"], dtype=np.int64).reshape(k, n)
+    if name in ("csr_csr", "csr_csr_count"):
+        a, b = dense_of_csr(args["A"], m, k), dense_of_csr(args["B"], k, n)
+    elif name in ("csr_nd", "csr_nd_count", "csr_nd_sparse"):
+        a = dense_of_csr(args["A"], m, k)
+    elif name in ("csc_nd", "csc_nd_count", "csc_nd_sparse"):
+        a = dense_of_csr(args["A"], k, m).T
+    return a, b
+
+
+def spec_check_kernel(name, args, info, got):
+    """used instead of the model inside a finding's region once the defect is repaired: the kernel's
+    output, densified, must be the matrix product"""
+    if "ok" not in got:
+        return f"no result: {json.dumps(got)[:120]}"
+    a, b = operands_of(name, args, info)
+    try:
+        d = densified(name, args, info, got["ok"])
+    except (IndexError, KeyError, ValueError) as e:
+        return f"kernel output is not a well-formed representation: {type(e).__name__}: {e}"
+    if d is None:
+        return None
+    ref = a @ b
     return None if np.array_equal(d, ref) else f"kernel output densifies to {d.tolist()}, product is {ref.tolist()}"
+
+
+def model_vs_spec(name, args, info, model):
+    """the statements about the kernel models that are only *stated* in Lean (Statement_*_kernel_spec)
+    are validated here on every generated case: model output, densified, equals the product."""
+    if "ok" not in model:
+        return None
+    w = model["ok"]
+    if name in ("csr_nd", "csc_nd", "coo_nd", "nd_coo"):
+        g = {"dense": w}
+    elif name == "csc_nd_sparse":
+        if len(w["data"]) != w["alloc"]:
+            return None  # ExcludedCscCancel: slots stay unwritten
+        g = w
+    elif name in ("csr_csr_count", "csr_nd_count", "csc_nd_count"):
+        return None
+    else:
+        g = w
+    a, b = operands_of(name, args, info)
+    d = densified(name, args, info, g)
+    ref = a @ b
+    return None if np.array_equal(d, ref) else f"model output densifies to {d.tolist()}, matmulSpec/numpy gives {ref.tolist()}"
 
 
 def dense_of_csr(t, nrows, ncols):
@@ -235,7 +275,7 @@ def csc_cancels(args, model):
     return "ok" in model and len(model["ok"]["data"]) != model["ok"]["alloc"]
 
 
-def leg_a_kernels(ctx, rng, pool, active, n_per):
+def leg_a_kernels(ctx, rng, pool, active, n_per, exhaustive=False):
     jobs, metas = [], []
     hang_budget = {"coo_nd": 1, "coo_nd_sparse": 1}
     for name in KERNELS:
@@ -251,8 +291,13 @@ def leg_a_kernels(ctx, rng, pool, active, n_per):
             cases.append(kernel_case(rng, name, dims, (np.asarray(mats[0], dtype=np.int64), np.asarray(mats[1], dtype=np.int64))))
         for _ in range(n_per):
             cases.append(kernel_case(rng, name))
+        if exhaustive:
+            # every 2x2 by 2x1 product over {-1, 0, 1}
+            for av in itertools.product((-1, 0, 1), repeat=4):
+                for bv in itertools.product((-1, 0, 1), repeat=2):
+                    cases.append(kernel_case(rng, name, (2, 2, 1), (np.array(av, dtype=np.int64).reshape(2, 2), np.array(bv, dtype=np.int64).reshape(2, 1))))
         for args, req, info in cases:
-            for py in (False, True):
+            for py in ((False,) if (exhaustive and info.get("box")) else (False, True)):
                 hang = kernel_expect_hang(name, args)
                 if hang:
                     if py or hang_budget[name] <= 0:
@@ -264,7 +309,7 @@ def leg_a_kernels(ctx, rng, pool, active, n_per):
                 jobs.append(job)
                 metas.append((name, args, req, info, py))
     outs = ctx.driver.run([m[2] for m in metas])
-    gots = pool.run(jobs)
+    gots = yield jobs
     for (name, args, req, info, py), got, model in zip(metas, gots, outs):
         case = {"kernel": name, "py_func": py, "args": args}
         nontrivial = bool(info["m"] and info["n"] and info["k"] and (np.any(np.array(info["a"])) or np.any(np.array(info["b"]))))
@@ -289,6 +334,11 @@ def leg_a_kernels(ctx, rng, pool, active, n_per):
             msg = compare_kernel(name, args, got, model, active)
         if msg:
             ctx.fail("A", f"kernel:{name}", case, msg)
+        if not py:
+            ms = model_vs_spec(name, args, info, model)
+            ctx.count("model_vs_spec_checks")
+            if ms:
+                ctx.fail("B", f"model_spec:{name}", case, ms)
     ctx.count("leg_a_kernel_calls", len(jobs))
 
 
@@ -320,6 +370,12 @@ def observed_orientation(call, a_shape, b_shape, b_dense):
     return "?"
 
 
+def as_public_call(case):
+    """the public call that hands `_dot` the operands of a dispatch case"""
+    return {"op": "tensordot", "a": kind_spec(np.array(case["a"]), case["ka"]), "b": kind_spec(np.array(case["b"]), case["kb"]),
+            "axes": [[1], [0]], "rt": case["rt"]}
+
+
 def leg_a_dispatch(ctx, rng, pool, active, reps):
     jobs, metas = [], []
     dimsets = [(2, 3, 4), (4, 3, 2), (3, 4, 2), (2, 4, 3)]
@@ -335,7 +391,7 @@ def leg_a_dispatch(ctx, rng, pool, active, reps):
             job = {"kind": "dispatch", "a": kind_spec(a, ka), "b": kind_spec(b, kb), "rt": rt, "_affinity": f"d:{ka}:{kb}"}
             jobs.append(job)
             metas.append((ka, kb, rt, a, b))
-    gots = pool.run(jobs)
+    gots = yield jobs
     reqs, keep = [], []
     for (ka, kb, rt, a, b), got in zip(metas, gots):
         case = {"op": "_dot", "ka": ka, "kb": kb, "rt": rt, "a": a.tolist(), "b": b.tolist()}
@@ -512,8 +568,8 @@ def einsum_case(rng):
 DTYPES = ["int64"]  # the thorough tier adds float64 / int32 / complex128 (values stay small integers, so arithmetic is exact)
 
 
-def make_operand(rng, shape, allowed):
-    dt = str(rng.choice(DTYPES))
+def make_operand(rng, shape, allowed, dt=None):
+    dt = dt or _CASE_DT or str(rng.choice(DTYPES))
     d = small_dense(rng, shape).astype(dt)
     f, ca = rand_fmt(rng, len(shape), allowed)
     return d, spec_of(d, f, ca, dtype=dt)
@@ -525,6 +581,16 @@ NO_SCIPY = ["coo", "coo", "gcxs", "gcxs", "nd"]
 
 def gen_case(rng, op):
     """-> (case dict for the worker, numpy thunk) or None"""
+    global _CASE_DT
+    # both operands share a dtype most of the time (each dtype pair compiles its own kernels)
+    _CASE_DT = str(rng.choice(DTYPES)) if rng.random() < 0.85 else None
+    return _gen_case(rng, op)
+
+
+_CASE_DT = None
+
+
+def _gen_case(rng, op):
     if op in ("dot", "matmul", "@", "method_dot"):
         s = capped(rng, (lambda: dot_shapes(rng)) if op in ("dot", "method_dot") else (lambda: matmul_shapes(rng)))
         if s is None:
@@ -696,7 +762,8 @@ def ref_of(case):
 def job_of(case, active):
     j = dict(case)
     j["kind"] = "product"
-    j["_affinity"] = f"{case['op'] if case['op'] in ('einsum', 'einsum1', 'vecdot', 'kron', 'outer') else 'prod'}:{findings_c04.kind(case['a'])}:{findings_c04.kind(case['b'])}"
+    j["_affinity"] = (f"{case['op'] if case['op'] in ('einsum', 'einsum1', 'vecdot', 'kron', 'outer') else 'prod'}:{findings_c04.kind(case['a'])}:"
+                      f"{findings_c04.kind(case['b'])}:{case['a'].get('dtype')}:{case['b'].get('dtype')}")
     if active.get("F-coo-nd-zero-cols-hang", True) and findings_c04.in_hang_region(case):
         j["_fresh"], j["_deadline"] = True, HANG_DEADLINE
     return j
@@ -723,18 +790,44 @@ def replay_witnesses(ctx, pool):
     return active
 
 
-def leg_c(ctx, rng, pool, active, n):
+GRID_KINDS = [("coo", None), ("gcxs", [0]), ("gcxs", [1]), ("scipy_csr", None), ("scipy_csc", None), ("nd", None)]
+
+
+def grid_cases(rng, reps):
+    """every operand-kind pair x every return type on 2-d operands (each `_dot` branch is reached by
+    public calls in every run), through tensordot, dot and matmul"""
+    out = []
+    for _ in range(reps):
+        for (fa, ca), (fb, cb) in itertools.product(GRID_KINDS, GRID_KINDS):
+            if fa == "nd" and fb == "nd":
+                continue
+            for rt in RTS + ["dot", "matmul"]:
+                m, k, n = (int(v) for v in rng.integers(1, 5, size=3))
+                a = small_dense(rng, (m, k), density=float(rng.choice([0.5, 0.9])))
+                b = small_dense(rng, (k, n), density=float(rng.choice([0.5, 0.9])))
+                if rt in RTS:
+                    out.append({"op": "tensordot", "a": spec_of(a, fa, ca), "b": spec_of(b, fb, cb), "axes": [[1], [0]], "rt": rt})
+                else:
+                    out.append({"op": rt, "a": spec_of(a, fa, ca), "b": spec_of(b, fb, cb)})
+    return out
+
+
+def leg_c(ctx, rng, pool, active, n, extra=(), corpus=True):
     cases, refs = [], []
     hang_cap = 2 if ctx.quick else 8
     hang_n = 0
-    # corpus first: the witnesses and a few hand-picked shapes
-    for fid, w in WITNESSES.items():
+    # corpus first: the witnesses, inputs on which a correspondence broke in this run, the kind grid
+    for fid, w in (WITNESSES.items() if corpus else ()):
         cases.append(dict(w))
         refs.append(ref_of(w))
         if findings_c04.in_hang_region(w):
             hang_n += 1
+    for c in list(extra) + (grid_cases(rng, 1 if ctx.quick else 4) if corpus else []):
+        cases.append(c)
+        refs.append(ref_of(c))
     k = 0
-    while len(cases) < n + len(WITNESSES) and k < 20 * n:
+    n += len(cases)
+    while len(cases) < n and k < 20 * n:
         k += 1
         op = OPS_C[int(rng.integers(len(OPS_C)))]
         c = gen_case(rng, op)
@@ -747,7 +840,7 @@ def leg_c(ctx, rng, pool, active, n):
             hang_n += 1
         cases.append(case)
         refs.append(ref)
-    res = pool.run([job_of(c, active) for c in cases], progress=lambda d, t: core.log(f"C04 leg C {d}/{t}"))
+    res = yield [job_of(c, active) for c in cases]
     for case, ref, r in zip(cases, refs, res):
         fam = f"C:{case['op']}:{case['a']['fmt']}:{case['b']['fmt']}" + (f":{case['rt']}" if "rt" in case else "")
         nontrivial = bool(np.any(np.array(case["a"]["dense"])) and np.any(np.array(case["b"]["dense"])))
@@ -760,32 +853,78 @@ def leg_c(ctx, rng, pool, active, n):
         if msg:
             ctx.fail("C", case["op"], case, msg, finding=findings.classify(PID, case["op"], case, msg))
     ctx.count("leg_c_calls", len(cases))
-    ctx.notes["hang_region_cases"] = hang_n
+    ctx.notes["hang_region_cases"] = ctx.notes.get("hang_region_cases", 0) + hang_n
 
 
 def run(ctx):
     ctx.trusted = TRUSTED
     ctx.assumptions = ["NumPy's functions are the specification", "element values are small integers (exact arithmetic); int64 only in the quick tier",
-                       "a call that does not answer within its deadline (20-60 s for inputs of at most 240 elements) does not return"]
+                       "a call that does not answer within its deadline (15 s for replays of the known non-returning calls, 60 s otherwise; inputs have at most 240 elements) does not return"]
+    t0 = time.time()
+    pool = c04_pool.Pool(n=8 if ctx.quick else 12, deadline=60.0)
+    # the witnesses of the known findings are replayed (under the watchdog) while Lean builds
+    box = {}
+    th = threading.Thread(target=lambda: box.update(active=replay_witnesses(ctx, pool)), daemon=True)
+    th.start()
     core.prove(ctx, PID, uses=[])
     rng = gen.rng_for(ctx.seed, PID)
     if not ctx.quick:
         DTYPES[:] = ["int64", "int64", "float64", "int32", "complex128"]
-    pool = c04_pool.Pool(n=8 if ctx.quick else 12, deadline=60.0)
-    active = replay_witnesses(ctx, pool)
+    phases = ctx.notes.setdefault("phase_wall_s", {})
+    t = t0
+
+    def lap(name):
+        nonlocal t
+        phases[name] = round(time.time() - t, 1)
+        t = time.time()
+
+    lap("prove")
+    th.join()
+    active = box["active"]
+    lap("witness_replay")
     findings_c04.ACTIVE.update(active)
     ctx.notes["findings_active"] = active
     leg_b_spec(ctx, rng, 60 if ctx.quick else 600)
     leg_a_tensordot_axes(ctx, rng, 80 if ctx.quick else 800)
-    leg_a_kernels(ctx, rng, pool, active, 14 if ctx.quick else 160)
-    leg_a_dispatch(ctx, rng, pool, active, 1 if ctx.quick else 4)
-    leg_c(ctx, rng, pool, active, 700 if ctx.quick else 8000)
+    lap("spec_and_axes")
+    # all calls of the three legs go to the pool together, so that the watchdog deadlines of the
+    # non-returning calls overlap with useful work
+    gens = [leg_a_kernels(ctx, rng, pool, active, 14 if ctx.quick else 160, exhaustive=not ctx.quick),
+            leg_a_dispatch(ctx, rng, pool, active, 1 if ctx.quick else 4),
+            leg_c(ctx, rng, pool, active, 480 if ctx.quick else 8000)]
+    if not ctx.quick:
+        ctx.cov["exhaustive_box"] = "every kernel (jitted) on all 2x2 by 2x1 integer matrices over {-1,0,1}: 729 operand pairs each"
+    parts = [next(g) for g in gens]
+    lap("generate_and_model")
+    res = pool.run([j for p in parts for j in p], progress=lambda d, t: core.log(f"C04 calls {d}/{t}"))
+    lap("implementation_calls")
+    at = 0
+    for g, p in zip(gens, parts):
+        try:
+            g.send(res[at:at + len(p)])
+        except StopIteration:
+            pass
+        at += len(p)
+    # a broken correspondence is not yet a violation: its inputs seed a failing-input search
+    seeds = [as_public_call(f["case"]) for f in ctx.failures if f["leg"] == "A" and f["family"] == "dispatch"][:40]
+    if seeds:
+        g = leg_c(ctx, rng, pool, active, 0, extra=seeds, corpus=False)
+        jobs = next(g)
+        try:
+            g.send(pool.run(jobs))
+        except StopIteration:
+            pass
+    lap("compare")
     ctx.notes["watchdog"] = {"hangs": pool.hangs, "crashes": pool.crashes}
     if os.environ.get("C04_DUMP"):  # development aid: every non-agreement of this run
         with open(os.environ["C04_DUMP"], "w") as f:
             json.dump(ctx.failures, f, default=str)
     ctx.notes["partial"] = {"coo_nd_always_returns_partial": "ExcludedCooNdZeroCols", "csr_csr_no_error_partial": "nCol = 0"}
-    ctx.notes["stated_not_proved"] = []
+    ctx.notes["stated_not_proved"] = ["Statement_csc_nd_sparse_kernel_spec_partial (outside ExcludedCscCancel)", "Statement_csc_nd_kernel_spec",
+                                      "Statement_coo_nd_kernel_spec", "Statement_nd_coo_kernel_spec",
+                                      "matmul batch logic, einsum, kron, outer, vecdot: no Lean model (leg C only)"]
+    ctx.notes["refuted_statements"] = ["Statement_coo_nd_always_returns", "Statement_csr_csr_no_error", "Statement_csr_csr_rows_sorted",
+                                       "Statement_csc_nd_sparse_precount_eq_written", "Statement_csc_nd_sparse_cols_sorted"]
     ctx.cov["rule"] = ("leg A: each of the 13 kernels/pre-counts called directly (jitted and py_func) on CSR/CSC/COO triples of random 2-d integer "
                        "matrices (extents 0-4, values -2..2, optionally unsorted rows/duplicates/explicit zeros) plus the Lean witnesses, compared "
                        "with the model on data/indices(order)/indptr/allocation/error; `_dot` for all 4x4 operand kinds x 4 return types compared "
